@@ -133,14 +133,14 @@ def c20(tier, seed):
     return session.run_property("C20", tier, seed, plan)
 
 
-C07_PREDS = ["C07_WriteRoute", "C07_StunShapedConsistent", "C07_NoSTUNWrite", "C07_ReadOnlyKnown", "C07_DataInert", "C07_ConnCounters", "C07_PairCounters"]
+C07_PREDS = ["C07_WriteRoute", "C07_StunShapedConsistent", "C07_NoSTUNWrite", "C07_ReadOnlyKnown", "C07_DataInert", "C07_ConnCounters", "C07_PairCounters", "C07_ShortReadReported"]
 
 
 def c07(tier, seed):
     w = n(tier, 200, 3000)
     runs = [dict(cfg=c, traces=w, drain=True, notime=True, preds=C07_PREDS) for c in ("pdata", "pdata21", "pdatanat", "pdatatcp", "pdatafilter")]
     runs.append(dict(cfg="pdata", traces=n(tier, 100, 1500), preds=C07_PREDS))
-    runs[0]["scheds"] = ["c07_reader_falls_behind"]
+    runs[0]["scheds"] = ["c07_reader_falls_behind", "c07_short_read_buffer"]
     runs[1]["scheds"] = ["c07_early_writes_follow_the_valid_set", "c07_early_write_then_restart"]
     plan = {"runs": runs, "mc": [("pdata", ["DataOnlyOnValid", "SelListed"], None)], "assumptions": SESSION_ASSUME + [
         "payload sizes 5..8192 bytes; the application reader runs concurrently and is drained at every step"]}
